@@ -540,6 +540,31 @@ def r_underflow_guard(cx):
                    if not okg else
                    "the failing side of the depth test in %s does not (stomp the operands with NaN and return 0)" % fn),
                   cx.where(f.term(bb)["span"]))
+    # all or nothing: a sub-command that needs more than the stack holds leaves the stack as it found it - the comparison
+    # of the depth with the whole demand comes before the first element is taken off (a loop that pops until the stack
+    # runs dry has already thrown away what a later step of the same application would have found there)
+    natomic = 0
+    for fn in PRIMS:
+        if not cx.f.has_fn(fn):
+            continue
+        f = cx.f.fn(fn)
+        guards_ = [g for g in _length_guards(f) if "single" not in g]
+        k = 0
+        for bb, t in f.calls():
+            c = f.callee(t) or ""
+            if not ("Vec" in c and c.rsplit("::", 1)[-1] in ("pop", "split_off", "truncate", "drain", "remove", "swap_remove", "clear")):
+                continue
+            if not _rooted_at_arg1(f.arg_terms(bb)[0]):
+                continue
+            natomic += 1
+            ok = any(f.dominates(g["ok"], bb) for g in guards_)
+            cx.ob("R-UNDERFLOW-GUARD", "%s/atomic%d" % (fn, k), ok,
+                  "%s takes elements off the stack only after the depth has been compared with the whole demand" % fn if ok else
+                  "%s takes elements off the stack before it knows that the stack holds enough: on underflow the elements already "
+                  "removed are lost, and a later step of the same pipeline application finds the stack emptied" % fn,
+                  cx.where(t["span"]))
+            k += 1
+    cx.count("R-UNDERFLOW-GUARD", "stack_removals", natomic)
     # depth - X with a loop-invariant X: the subtraction itself must be protected by a test of that very X
     nsub = 0
     for fn in PRIMS:
